@@ -8,7 +8,7 @@ use encoding_rs::*;
 use serde_json::json;
 use std::time::Instant;
 
-pub const RULE: &str = "case = decoder history whose stream starts with every prefix of length 0..=3 over {EF BB BF FE FF 00 41 80} (exhaustive) followed by a tail, in the three BOM modes, all cut sets of the first bytes, small and large sinks, UTF-8/UTF-16, raw/replacement; oracle (metamorphic) = a no-BOM decoder of (BOM-selected or nominal) encoding on the stream minus the BOM: same scalars, same absolute error locations shifted by the BOM length, encoding() equal to the selected encoding; plus Encoding::for_bom against the three literal prefixes on all strings of length <= 3 and random longer ones. Non-trivial = stream starts with a BOM or look-alike byte and has a cut inside its first 3 bytes; distinct = distinct history.";
+pub const RULE: &str = "case = decoder history whose stream starts with every prefix of length 0..=3 over {EF BB BF FE FF 00 41 80} (exhaustive) followed by a tail, in the three BOM modes, all cut sets of the first bytes, small and large sinks (also patterns that begin with a destination of 0 or 2 units, below the documented minimum, which the caller then grows: such a call may panic - the history is then discarded - or return OutputFull without progress, but what follows must be unaffected), UTF-8/UTF-16, raw/replacement; oracle (metamorphic) = a no-BOM decoder of (BOM-selected or nominal) encoding on the stream minus the BOM: same scalars, same absolute error locations shifted by the BOM length, encoding() equal to the selected encoding; plus Encoding::for_bom against the three literal prefixes on all strings of length <= 3 and random longer ones. Non-trivial = stream starts with a BOM or look-alike byte and has a cut inside its first 3 bytes; distinct = distinct history.";
 
 fn check<'a>(ctx: &Ctx) -> DecCheck<'a> {
     DecCheck {
@@ -100,7 +100,9 @@ fn prefix_family(ctx: &Ctx) -> Stats {
                     for &mode in &c.modes {
                         for &sink in &c.sinks {
                             for &repl in &c.repls {
-                                for caps in [vec![sink.min_cap()], vec![sink.min_cap() + 1], vec![]] {
+                                // the last two patterns start with a destination BELOW the minimum (0 or 2 units -
+                                // a String without spare capacity that the caller grows after OutputFull)
+                                for caps in [vec![sink.min_cap()], vec![sink.min_cap() + 1], vec![], vec![crate::drive_dec::cap_under(0), sink.min_cap()], vec![crate::drive_dec::cap_under(2), crate::drive_dec::cap_under(0), 8]] {
                                     for last_on_empty in [false, true] {
                                         let h = DecHistory { enc, mode, sink, repl, stream: stream.clone(), cuts: cuts.clone(), last_on_empty, caps: caps.clone(), fill: 0xA5, align: 0, sinks_per_call: vec![], repls_per_call: vec![] };
                                         st.evals += 1;
@@ -151,7 +153,26 @@ fn for_bom_family(ctx: &Ctx) -> Stats {
             }
         }
     });
-    st.exhaustive.push("Encoding::for_bom: all strings of length <= 2, all 3-byte strings starting with EF/FE/FF/BB/00".into());
+    // each BOM (and each two-byte look-alike) followed by every pair of further bytes
+    let lookalikes: [&[u8]; 7] = [b"\xEF\xBB\xBF", b"\xFF\xFE", b"\xFE\xFF", b"\xEF\xBB", b"\xFF\xFF", b"\xFE\xFE", b"\xEF\xBF\xBB"];
+    let more = par_run(ctx, lookalikes.len() * 16, |part, st| {
+        let pre = lookalikes[part / 16];
+        for a in ((part % 16) * 16)..((part % 16) * 16 + 16) {
+            for b in 0..=255u8 {
+                let mut v = pre.to_vec();
+                v.push(a as u8);
+                v.push(b);
+                st.evals += 1;
+                st.nontrivial_distinct();
+                if let Some(m) = for_bom_check(&v) {
+                    st.violations.push(Violation { msg: m, sig: "C10:for_bom".into(), case: json!({"kind": "for_bom", "bytes_hex": fw::hex(&v)}) });
+                    return;
+                }
+            }
+        }
+    });
+    st.merge(more);
+    st.exhaustive.push("Encoding::for_bom: all strings of length <= 2, all 3-byte strings starting with EF/FE/FF/BB/00, each BOM and look-alike followed by every pair of further bytes".into());
     let mut r = Stats::new();
     let strat = (0usize..12, proptest::collection::vec(any::<u8>(), 0..40)).prop_map(|(i, tail)| {
         let mut v = crate::gen::BOMISH[i].to_vec();
@@ -169,9 +190,58 @@ fn for_bom_family(ctx: &Ctx) -> Stats {
     st
 }
 
+/// the one-shot methods make the same promises (decode sniffs, decode_with_bom_removal strips
+/// only its own BOM, the two without_bom_handling forms strip nothing): they are compared with
+/// the streaming decoders of the three modes - which the families above tie to the oracle -
+/// on BOM / look-alike prefixes at the start AND after an ASCII run (where no BOM logic may exist)
+fn one_shot_family(ctx: &Ctx) -> Stats {
+    const ALPHA: [u8; 8] = [0xEF, 0xBB, 0xBF, 0xFE, 0xFF, 0x00, 0x41, 0x80];
+    let mut prefixes: Vec<Vec<u8>> = vec![vec![]];
+    for a in ALPHA {
+        prefixes.push(vec![a]);
+        for b in ALPHA {
+            prefixes.push(vec![a, b]);
+            for c in ALPHA {
+                prefixes.push(vec![a, b, c]);
+            }
+        }
+    }
+    let all = encs::all();
+    par_run(ctx, all.len(), |part, st| {
+        let enc = all[part];
+        let mut drv = crate::drive_dec::DecDriver::new();
+        let tails: [&[u8]; 7] = [b"", b"a", b"\x00\x00", b"d\x00e\x00", b"\x00d\x00e", b"\xFF", b"\xE4\xB8\xAD"];
+        for p in &prefixes {
+            if fw::should_stop() {
+                return;
+            }
+            for tail in tails {
+                for run in [0usize, 1, 16, 70] {
+                    let mut v: Vec<u8> = (0..run).map(|i| b'a' + (i % 26) as u8).collect();
+                    v.extend_from_slice(p);
+                    v.extend_from_slice(tail);
+                    st.evals += 1;
+                    st.class("one-shot-methods-on-BOM-and-look-alike-prefixes");
+                    if matches!(p.first(), Some(0xEF) | Some(0xFE) | Some(0xFF)) {
+                        st.nontrivial_distinct();
+                    }
+                    if let Some((method, msg)) = super::c11::check_decode(enc, &v, &mut drv, None) {
+                        st.violations.push(Violation { msg: format!("{} {} on {}: {}", enc.name(), method, fw::hex(&v), msg), sig: "C10:one-shot".into(), case: json!({"kind": "c10_one_shot", "encoding": encs::const_name(enc), "input_hex": fw::hex(&v)}) });
+                        return;
+                    }
+                }
+            }
+        }
+    })
+}
+
 pub fn run(ctx: &Ctx) -> i32 {
     let t0 = Instant::now();
     let mut st = for_bom_family(ctx);
+    if !fw::should_stop() {
+        st.merge(one_shot_family(ctx));
+        st.exhaustive.push("one-shot decode / decode_with_bom_removal / decode_without_bom_handling{,_and_without_replacement}: every prefix of length 0..=3 over {EF BB BF FE FF 00 41 80} x 7 tails (incl. 00 00 and UTF-16 text) after an ASCII run of 0/1/16/70 bytes, all 40 encodings, against the streaming decoder of the matching mode".into());
+    }
     if !fw::should_stop() {
         let s = prefix_family(ctx);
         st.merge(s);
@@ -186,6 +256,14 @@ pub fn run(ctx: &Ctx) -> i32 {
 }
 
 pub fn replay(case: &serde_json::Value) -> Option<Vec<Violation>> {
+    if case.get("kind").and_then(|k| k.as_str()) == Some("c10_one_shot") {
+        let enc = encs::by_const(case.get("encoding")?.as_str()?)?;
+        let b = fw::unhex(case.get("input_hex")?.as_str()?);
+        return Some(match super::c11::check_decode(enc, &b, &mut crate::drive_dec::DecDriver::new(), None) {
+            None => vec![],
+            Some((m, msg)) => vec![Violation { msg: format!("{}: {}", m, msg), sig: "C10:one-shot".into(), case: case.clone() }],
+        });
+    }
     if case.get("kind").and_then(|k| k.as_str()) == Some("for_bom") {
         let b = fw::unhex(case.get("bytes_hex")?.as_str()?);
         return Some(match for_bom_check(&b) {
